@@ -295,7 +295,7 @@ def call_interval(t, iv, b, depth):
                 bi = (0, 255)
             hi += bi[1] << (8 * k)
         return (0, hi)
-    if re.fullmatch(r"core::num::<impl [iu](8|16|32|64|128|size)>::count_(ones|zeros)", callee):
+    if re.fullmatch(r"core::num::<impl [iu](8|16|32|64|128|size)>::(count_ones|count_zeros|leading_zeros|trailing_zeros|leading_ones|trailing_ones)", callee):
         ty0 = ty_of(args[0]) if args else None
         return (0, ty0["bits"]) if ty0 and "bits" in ty0 else (0, 128)
     if callee in ("<core::iter::Filter<I, P> as core::iter::Iterator>::count", "<core::str::Chars as core::iter::Iterator>::count",
